@@ -68,10 +68,66 @@ let sample_kv (body : string) : (string * string) list =
     | Some i -> Some (String.sub kvs 0 i, String.sub kvs (i + 1) (String.length kvs - i - 1))
     | None -> None) (String.split_on_char ',' body)
 
-let abstract (max : Model.z) (evs : string list) : aev list =
+let kind_of_tag (t : string) : fkind =
+  match t with
+  | "Call" -> KCall | "CallCompressed" -> KCallC | "Response" -> KResp | "Notify" -> KNotify | "Cancel" -> KCancel | _ -> KBad
+
+(* method name of a request frame (as bytes), if it is one *)
+let method_of (bs : n list) : string option =
+  match dec_int32 bs with
+  | I32 (_, rest) ->
+      (match decode rest with
+       | DOk (VArr (VInt t :: els), _) ->
+           (match ZZ.to_int (z_of_coq t), els with
+            | 0, _ :: VStr m :: _ -> Some (string_of_bytes m)
+            | 4, _ :: _ :: VStr m :: _ -> Some (string_of_bytes m)
+            | 2, VStr m :: _ -> Some (string_of_bytes m)
+            | _ -> None)
+       | _ -> None)
+  | _ -> None
+
+let abstract_with (known : string list option) (max : Model.z) (evs : string list) : aev list =
   let infl = C02.inflated_of evs in
   let fed : (string * frame_info) list ref = ref [] in     (* nonce (decimal) -> request frame *)
-  List.filter_map (fun e ->
+  List.concat_map (fun e ->
+    match String.split_on_char '/' e with
+    | "ret" :: c :: "nil" :: buf :: _ ->
+        let r = (try nonce_of (parse buf) with _ -> zc (-1)) in
+        [ ARet (id_num c, ROk); AResult (id_num c, r) ]
+    | [ "feed"; h ] ->
+        (* split the fed bytes into frames along their length prefixes; a remainder that is not a whole frame is one
+           (malformed) event *)
+        let rec split (bs : n list) (acc : aev list) : aev list =
+          if bs = [] then List.rev acc else
+          match dec_int32 bs with
+          | I32 (l, rest) when ZZ.gt (z_of_coq l) ZZ.zero && ZZ.to_int (z_of_coq l) <= List.length rest ->
+              let li = ZZ.to_int (z_of_coq l) in
+              let plen = List.length bs - List.length rest in
+              let rec take n l = if n = 0 then [] else match l with [] -> [] | x :: t -> x :: take (n - 1) t in
+              let rec drop n l = if n = 0 then l else match l with [] -> [] | _ :: t -> drop (n - 1) t in
+              let fb = take (plen + li) bs in
+              let fi = frame_info_of max infl fb in
+              fed := (ZZ.to_string (z_of_coq fi.fi_nonce), fi) :: !fed;
+              let kn = (match known, method_of fb with
+                        | Some l, Some m -> List.mem m l
+                        | _, _ -> true) in
+              split (drop li rest) (AFeed (fi, kn) :: acc)
+          | _ ->
+              let fi = frame_info_of max infl bs in
+              List.rev (AFeed (fi, true) :: acc) in
+        split (bytes_of_hex (if h = "-" then "" else h)) []
+    | [ "bufs"; body ] ->
+        List.filter_map (fun kvs -> match String.split_on_char '=' kvs with
+          | [ c; v ] -> Some (ABuf (id_num c, v = "1")) | _ -> None) (String.split_on_char ',' body)
+    | [ "record"; tag; size ] ->
+        (* tag = "<Type> <method>"; the method's trailing digits identify the operation *)
+        let t = string_of_hex (if tag = "-" then "" else tag) in
+        (match String.index_opt t ' ' with
+         | Some i ->
+             let ty = String.sub t 0 i and me = String.sub t (i + 1) (String.length t - i - 1) in
+             [ ARecord (kind_of_tag ty, id_num me, z_to_coq (ZZ.of_string size)) ]
+         | None -> [ ARecord (KBad, zc (-1), z_to_coq (ZZ.of_string size)) ])
+    | _ -> (match (fun e ->
     match String.split_on_char '/' e with
     | [ "callstart"; c ] -> Some (AStart (id_num c))
     | [ "sn"; q ] -> Some (ANotifier (z_to_coq (ZZ.of_string q)))
@@ -80,10 +136,7 @@ let abstract (max : Model.z) (evs : string list) : aev list =
     | [ "writefail"; h ] -> Some (AWriteFail (frame_info_of max infl (bytes_of_hex h)))
     | "ret" :: c :: cls :: _ -> Some (ARet (id_num c, rclass_of cls))
     | [ "cancel"; c ] -> Some (ACtx (id_num c))
-    | [ "feed"; h ] ->
-        let fi = frame_info_of max infl (bytes_of_hex (if h = "-" then "" else h)) in
-        fed := (ZZ.to_string (z_of_coq fi.fi_nonce), fi) :: !fed;
-        Some (AFeed (fi, true))
+    | [ "feed"; h ] -> None   (* handled below: one event per frame in the fed bytes *)
     | "hstart" :: h :: _ :: a :: _ ->
         let nn = (try nonce_of (parse a) with _ -> zc (-1)) in
         let fi = (match List.assoc_opt (ZZ.to_string (z_of_coq nn)) !fed with
@@ -109,7 +162,20 @@ let abstract (max : Model.z) (evs : string list) : aev list =
         let g x = try List.assoc x k with Not_found -> "" in
         let zi x = z_to_coq (ZZ.of_string (if g x = "" then "0" else g x)) in
         Some (ASample (zi "pending", zi "goroutines", g "done" = "1", g "connected" = "1", g "err" = "nil"))
-    | _ -> None) evs
+    | _ -> None) e with Some x -> [ x ] | None -> [])) evs
+
+let abstract (max : Model.z) (evs : string list) : aev list = abstract_with None max evs
+
+(* protocols=<prot hex>:<m hex>+<m hex>;...  ->  full method names *)
+let known_methods (spec : string) : string list =
+  if spec = "" || spec = "-" then [] else
+  List.concat_map (fun ps ->
+    match String.index_opt ps ':' with
+    | Some i ->
+        let p = string_of_hex (String.sub ps 0 i) in
+        let ms = split_on '+' (String.sub ps (i + 1) (String.length ps - i - 1)) in
+        List.map (fun m -> let mn = string_of_hex m in if p = "" then mn else p ^ "." ^ mn) ms
+    | None -> []) (String.split_on_char ';' spec)
 
 let timeouts (evs : string list) : string list =
   List.filter (fun e -> String.length e >= 8 && String.sub e 0 8 = "timeout/") evs
